@@ -112,7 +112,7 @@ def _a_forward_matrix(chk):
                   f"the transition matrix whose spectrum is classified (|lambda|<1 => stable) and which transports the "
                   f"eigenvector is computed with forward={ast.unparse(fwd) if fwd is not None else 1}; it must be the "
                   f"forward-time matrix", sample=ri.norm_stmt(call)[:150])
-        got = tuple(ast.unparse(bound[p.arg]) if p.arg in bound else None for p in fdef.args.args[:3])
+        got = tuple(sites.arg_text(fn, bound[p.arg]) if p.arg in bound else None for p in fdef.args.args[:3])
         ok = got[0] == "self.var_dynsys" and got[1] in ("self.orbit.initial_state", "self.initial_state") and got[2] in ("self.period", "self.orbit.period")
         chk.check(ok, "C12.a", f"{MAN}::{q}[_compute_stm.args]", f"STM is not computed on the orbit's own variational system, state and period: {got}",
                   sample=str(got))
